@@ -3,8 +3,9 @@
 
     [spec_ok] judges an *observed* outcome from the inputs alone.  It never
     runs the parser model: the "exactly when" half is a reference with explicit
-    don't-care regions -- four decidable *sufficient* conditions under which an
-    error is due (B1-B4, one per documented situation) and one decidable region
+    don't-care regions -- decidable *sufficient* conditions under which an
+    error is due (B1-B4, one per documented situation; B5, unconvertible values,
+    counted under "unknown token") and one decidable region
     of plainly well-formed command lines on which no error is due (C).  Outside
     those regions only the class of the outcome is judged (A). *)
 From InvokeVerif Require Export Spec.ParserObs.
@@ -93,6 +94,30 @@ Definition b4_ambiguity_due (body : list string) : bool :=
   | _ => false
   end.
 
+(** B5. A value its argument's type cannot convert is an error.  The property
+    lists four situations; a text that is not an integer given to an int-typed
+    flag is an unusable token and is counted under the first ("an unknown
+    token").  Sufficient condition judged here: the command line starts
+    <task> <int-valued, non-optional flag of that task> <x>  with x not of the
+    form [+-]?[0-9]+ . *)
+Definition b5_bad_value_due (body : list string) : bool :=
+  match body with
+  | c0 :: f :: x :: _ =>
+      plain c0 &&
+      match init with Some ic => negb (has_positionals ic) | None => true end &&
+      match task_named cs c0 with
+      | Some c =>
+          match arg_of_flag c f with
+          | Some a =>
+              akind_eqb (a_kind a) KInt && takes_value a && negb (a_optional a)
+              && match parse_int x with Some _ => false | None => true end
+          | None => false
+          end
+      | None => false
+      end
+  | _ => false
+  end.
+
 (** C. Plainly well-formed command lines: task names (of tasks without
     positional arguments), each followed by exact flags of that task -- value
     flags (not optional-value, not repeated unless list-kind) followed by one
@@ -157,6 +182,7 @@ Definition spec_ok (argv : list string) (obs : result pobs) : bool :=
          && negb (b2_dangling_flag body o)
          && negb (b3_unknown_due body && (negb ign || match o_unparsed o with [] => true | _ => false end))
          && negb (b4_ambiguity_due body)
+         && negb (b5_bad_value_due body)
      | Err _ => negb (c_plainly_valid argv)
      end.
 
